@@ -1,12 +1,8 @@
 package main
 
-import "time"
 
 func compilePostReplay(x *Exec, o *Oblig, rb *replayBuilder, decls []string, call string) (string, bool) {
 	return "", false
 }
 
 
-func runLemmas(L *Loaded, cs *ContractSet, ps *PropSpec, timeout time.Duration, all bool) []*Group {
-	return nil
-}
